@@ -44,4 +44,24 @@ def remotePush (s : DState) (received : List Bytes) (announced : Nat) : DState :
   if staged.length = announced then { s1 with dest := some staged, tmp := none, stamped := true }   -- mv && touch
   else s1
 
+/-! ## Name lists for the remote `xargs -0` (push `--delete`, remote `mkdir`) -/
+
+/-- the NUL-delimited list the sender writes: every name followed by a NUL byte -/
+def nulJoin : List Bytes → Bytes
+  | [] => []
+  | n :: t => n ++ 0 :: nulJoin t
+
+/-- what GNU `xargs -0` makes of its input: items end at a NUL — or at END OF INPUT (an unterminated tail is an item too) -/
+def xargsItems : Bytes → Bytes → List Bytes
+  | [], cur => if cur.isEmpty then [] else [cur]
+  | b :: rest, cur => if b = 0 then cur :: xargsItems rest [] else xargsItems rest (cur ++ [b])
+
+/-- the repaired remote command `t=$(mktemp) && cat > "$t" && [ "$(wc -c < "$t")" -eq LEN ] && xargs -0 TOOL < "$t"`:
+the names the tool is run on, for whatever part of the stream arrived -/
+def guardedXargs (received : Bytes) (announced : Nat) : List Bytes :=
+  if received.length = announced then xargsItems received [] else []
+
+/-- the unguarded command `xargs -0 TOOL` of the code before the D18 repair -/
+def plainXargs (received : Bytes) : List Bytes := xargsItems received []
+
 end Copia.Deliver
